@@ -1071,7 +1071,7 @@ def derived_names(fn, seeds):
 
 
 def d2_order(ctx, idx):
-    r = ctx.rule('D2.ORDER', 'shape validation dominates every statement that combines the student value with the expected ones', floor=6)
+    r = ctx.rule('D2.ORDER', 'shape validation dominates every statement that combines the student value with the expected ones', floor=8)
     with r:
         specs = [(C + 'EqualityComparer.__call__', 1, 'validate'), (C + 'MatrixEntryComparer.__call__', 1, 'validate'),
                  (C + 'eigenvector_comparer', 0, 'validate_shape'), (C + 'vector_span_comparer', 0, 'validate_shape'),
@@ -1130,6 +1130,46 @@ def d2_order(ctx, idx):
             else:
                 r.ok('%s: validation before comparison' % label, '%d combining statement(s) dominated by the validation' % len(combining),
                      lib.loc(fi, vcalls[0]))
+        # the validation sees the RAW evaluations: a configured transform (norm, trace, ...) may collapse the shape
+        for q, off in ((C + 'EqualityComparer.__call__', 1), (C + 'MatrixEntryComparer.__call__', 1)):
+            fi = idx.func(q)
+            P, S, U = roles(fi, off)
+            label = q.split('.comparers.')[-1].replace('comparers.', '')
+            construct = '%s: validation sees raw values' % label
+            tnames = {n for n, v in lib.local_env(fi.node).items() if nf.config_key(v) == 'transform'}
+
+            def is_transform_call(c):
+                return isinstance(c, ast.Call) and (nf.config_key(c.func) == 'transform' or (isinstance(c.func, ast.Name) and c.func.id in tnames))
+            n_paths = 0
+            verdict = None
+            for p in nf.decision_paths(fi.node.body):
+                if p.leaf.kind == 'raise':
+                    continue
+                vcs = [c for e in p.effects for c in ast.walk(e) if isinstance(c, ast.Call) and nf.callee_name(c) == 'validate'
+                       and isinstance(c.func, ast.Attribute)]
+                if not vcs:
+                    continue
+                n_paths += 1
+                for c in vcs:
+                    tcalls = [x for a in c.args for x in ast.walk(a) if is_transform_call(x)]
+                    if tcalls:
+                        verdict = ('bad', c, tcalls[0])
+                    elif not any(mentions(a, S) for a in c.args):
+                        verdict = verdict or ('und', c, None)
+            if n_paths == 0:
+                r.undecided(construct, 'no path with a validate(...) call could be followed', fi.loc)
+            elif verdict is None:
+                r.ok(construct, 'validate(...) receives the untransformed evaluations on %d path(s)' % n_paths, fi.loc)
+            elif verdict[0] == 'bad':
+                c = verdict[1]
+                line = next((getattr(x, 'lineno', None) for x in lib.calls_named(fi.node, 'validate')), None)
+                r.violation(construct, 'the shape validation is applied to values that already went through the configured transform '
+                            '(`%s`): with a shape-collapsing transform (np.linalg.norm, trace) a submission of the wrong shape passes the '
+                            'validation and is graded instead of being reported as a shape mismatch' % short(verdict[2], 60),
+                            '%s:%s' % (fi.module.relpath, line or fi.node.lineno), expected='validate the raw evaluations, then transform',
+                            found=short(c, 100))
+            else:
+                r.undecided(construct, 'arguments of `%s` are not recognisably the evaluations' % short(verdict[1], 80), fi.loc)
         # MatrixEntryComparer.validate visits every sample pair
         fi = idx.func(C + 'MatrixEntryComparer.validate')
         E, S, U = fi.params[0], fi.params[1], fi.params[2]
@@ -1811,6 +1851,10 @@ MUTANTS = [
            "    A = np.vstack([y, np.ones(len(y))]).T\n    coeffs, residuals, rank, singular_vals = np.linalg.lstsq(A, x, rcond=-1)", 'D1'),
     Mutant('proportional-fit-regresses-x-on-y', LIN, "    A = np.vstack(x)\n    coeffs, residuals, rank, singular_vals = np.linalg.lstsq(A, y, rcond=-1)",
            "    A = np.vstack(y)\n    coeffs, residuals, rank, singular_vals = np.linalg.lstsq(A, x, rcond=-1)", 'D1'),
+    Mutant('seeded-C16f-entry-validation-after-transform', CMP, "        expected_evals = [params[0] for params in comparer_params_evals]\n        self.validate(expected_evals, student_evals, utils)\n\n        transform = self.config['transform']\n        expected_evals = [transform(x) for x in expected_evals]\n        student_evals = [transform(x) for x in student_evals]\n",
+           "        transform = self.config['transform']\n        expected_evals = [transform(params[0]) for params in comparer_params_evals]\n        student_evals = [transform(x) for x in student_evals]\n        self.validate(expected_evals, student_evals, utils)\n\n", 'D2'),
+    Mutant('equality-validation-of-transformed-values', CMP, "        self.validate(expected_eval, student_eval, utils)\n\n        transform = self.config['transform']\n        expected_eval = transform(expected_eval)\n        student_eval = transform(student_eval)\n",
+           "        transform = self.config['transform']\n        expected_eval = transform(expected_eval)\n        student_eval = transform(student_eval)\n        self.validate(expected_eval, student_eval, utils)\n", 'D2'),
     Mutant('linear-validation-removed', LIN, "            utils.validate_shape(student_evals[0], shape)", "            pass", 'D2'),
     Mutant('nearly-zero-strict', MF, "    return np.linalg.norm(x) <= tolerance", "    return np.linalg.norm(x) < tolerance", 'D1'),
     Mutant('nearly-zero-relative-to-itself', MF, "        tolerance = np.linalg.norm(reference) * percentage_as_number(tolerance)",
@@ -1920,5 +1964,7 @@ BENIGN = [
            "    return utils.within_tolerance(actual, expected)\n\n"
            "def _is_zero_vector(vector, utils):\n    return utils.within_tolerance(0, np.linalg.norm(vector))\n\n"
            "def _zero_credit(msg):\n    return {'ok': False, 'grade_decimal': 0, 'msg': msg}\n"),
+    Benign('entry-transform-fetched-before-validation', CMP, "        expected_evals = [params[0] for params in comparer_params_evals]\n        self.validate(expected_evals, student_evals, utils)\n\n        transform = self.config['transform']\n        expected_evals = [transform(x) for x in expected_evals]\n",
+           "        transform = self.config['transform']\n        raw_expected = [params[0] for params in comparer_params_evals]\n        self.validate(raw_expected, student_evals, utils)\n        expected_evals = [transform(x) for x in raw_expected]\n"),
     Benign('eigen-log-statement', CMP, "    expected = eigenvalue * student_eval\n    actual = matrix * student_eval\n", "    expected = eigenvalue * student_eval\n    actual = matrix * student_eval\n    _unused = len(comparer_params_eval)\n"),
 ]
